@@ -155,6 +155,11 @@ def execute(case):
                 elif op == "deepcopy": out = lst.deepcopy()
                 elif op == "filter": out = lst.filter(lambda x: x.get("k") != 2)
                 elif op == "filter_out": out = lst.filter_out(k=2) if all("k" in x for x in _items(lst)) else lst.filter_out(lambda x: False)
+                elif op == "sort" and _items(lst) and any("s" not in x for x in _items(lst)) and rng.random() < 0.5:
+                    # a sort key that some item does not have: whether sort raises or copes, it is a non-modifying method
+                    try: out = lst.sort(s=1)
+                    except KeyError: out = lst.copy()
+                    res.count("sort-on-absent-key")
                 elif op == "sort": out = lst.sort(_tag_=rng.choice([1, -1])) if all("_tag_" in x for x in _items(lst)) else lst.copy()
                 elif op == "unique": out = lst.unique("s") if all("s" in x for x in _items(lst)) else lst.copy()
                 elif op == "head": out = lst.head(rng.randint(0, n + 1))
